@@ -299,36 +299,42 @@ def enc_state(st):
 
 
 # ---------------------------------------------------------------------------------------------- the property on the implementation
-MEDIA_FORBIDS = None
-PAGE_FORBIDS = None
+# What a container may hold is part of the statement ("no rule kind inside a container that forbids it"), so the
+# oracle carries it as a fixed table of its own -- it is neither read from the model nor asked from insertRule
+# (a regression that makes insertRule accept a kind must not move the yardstick).  It is the union of what the
+# container's insertRule and its parser refuse on the reference tree; container_tables() cross-checks the parser half
+# against the running implementation (which children survive a parse of '@media all { <child> }').
+MEDIA_FORBIDS = frozenset([2, 3, 10, 5, 1008, 1006])     # @charset @import @namespace @font-face @variables margin
+PAGE_FORBIDS = frozenset([2, 3, 10, 5, 6, 4])            # @charset @import @namespace @font-face @page @media
+_TABLES_CHECKED = []
 
 
 def container_tables():
-    """kinds each container refuses, read from the running implementation by asking it (not from the model):
-    a kind is forbidden when insertRule of a representative object is rejected on a fresh container"""
-    global MEDIA_FORBIDS, PAGE_FORBIDS
-    if MEDIA_FORBIDS is not None:
-        return
+    """cross-check of MEDIA_FORBIDS with the @media parser of the running implementation; returns a description of
+    the first difference or None"""
+    if _TABLES_CHECKED:
+        return _TABLES_CHECKED[0]
     import css_parser
     css_parser.log.setLevel(logging.FATAL)
     old = css_parser.log.raiseExceptions
-    css_parser.log.raiseExceptions = False
-    res = {}
-    for cname in ("md", "pg"):
-        bad = set()
-        for n in ("cs1", "im", "np1", "var", "st", "md", "pg", "ff", "un", "cm", "mg"):
-            c = mkobj(cname)
-            before = len(c.cssRules)
-            c.insertRule(mkobj(n))
-            if len(c.cssRules) == before:
-                bad.add(RULES[n][1][0])
-        res[cname] = bad
+    bad = None
+    p = css_parser.CSSParser(fetcher=nofetch, raiseExceptions=False)
+    for n in ("cs1", "im", "np1", "var", "st", "md", "pg", "ff", "un", "cm", "mg"):
+        k = RULES[n][1][0]
+        s = p.parseString("@media all {\n a { y: 2 }\n" + RULES[n][0] + "\n}")
+        kept = len(s.cssRules) == 1 and k in [c.type for c in s.cssRules[0].cssRules][1:]
+        if kept == (k in MEDIA_FORBIDS):
+            bad = "the @media parser %s a child of kind %d, the containment table says otherwise" % (
+                "keeps" if kept else "drops", k)
+            break
     css_parser.log.raiseExceptions = old
-    MEDIA_FORBIDS, PAGE_FORBIDS = res["md"], res["pg"]
+    _TABLES_CHECKED.append(bad)
+    return bad
 
 
-def order_violation(st):
-    """the statement's ValidOrder on an observed state; returns None or a description"""
+def order_violation(st, tr=None):
+    """the statement's ValidOrder on an observed state (tr = deep tree, for containment at every depth);
+    returns None or a description"""
     ks = [r[0] for r in st]
     for i, k in enumerate(ks):
         if k == 2 and i != 0:
@@ -342,16 +348,31 @@ def order_violation(st):
         return "@import at index %d after a style/@media/@page/@font-face rule at index %d" % (max(imports), min(body))
     if body and nss and max(nss) > min(body):
         return "@namespace at index %d after a style/@media/@page/@font-face rule at index %d" % (max(nss), min(body))
-    for i, r in enumerate(st):
-        forb = MEDIA_FORBIDS if r[0] == 4 else PAGE_FORBIDS if r[0] == 6 else ()
-        for c in r[5]:
+    if tr is None:
+        tr = [[r[0], [[c, None] for c in r[5]] if r[0] in (4, 6) else None] for r in st]
+    return containment_violation(tr, [])
+
+
+def containment_violation(tr, path):
+    for i, (k, kids) in enumerate(tr):
+        if kids is None:
+            continue
+        forb = MEDIA_FORBIDS if k == 4 else PAGE_FORBIDS
+        for c, _ in kids:
             if c in forb:
-                return "rule kind %d inside the container of kind %d at index %d, which refuses it" % (c, r[0], i)
+                return "rule kind %d inside the %s at %s, which refuses it" % (
+                    c, "@media" if k == 4 else "@page", path + [i])
+        v = containment_violation(kids, path + [i])
+        if v:
+            return v
     return None
 
 
+INSERTS = ("ins", "add", "append", "extend")
+
+
 def op_label(op):
-    names = op[3] if op[0] in ("ins", "add") else op[2] if op[0] == "text" else []
+    names = op[3] if op[0] in INSERTS else op[2] if op[0] == "text" else []
     where = "" if (len(op) < 2 or op[1] is None or op[0] in ("nsset", "nsdel", "enc")) else "@container"
     return "%s%s(%s)" % (op[0], where, ",".join(names) if isinstance(names, list) else names)
 
@@ -359,31 +380,78 @@ def op_label(op):
 def is_rejected(op, res):
     if res[0] in ("exc", "crash"):
         return True
-    return op[0] in ("ins", "add") and res[0] == "ret" and res[1] is None
+    return op[0] in INSERTS and res[0] == "ret" and res[1] is None
+
+
+def subtree(tr, path):
+    """(kind, children) of the container a path addresses in a deep tree, or None"""
+    node = None
+    for i in (path if isinstance(path, list) else [path]):
+        if not (0 <= i < len(tr)) or tr[i][1] is None:
+            return None
+        node = tr[i]
+        tr = node[1]
+    return node
+
+
+def tree_diff(a, b, where="the sheet"):
+    """first place where two deep trees differ: (where, kinds a, kinds b) or None"""
+    ka, kb = [x[0] for x in a], [x[0] for x in b]
+    if ka != kb:
+        return where, ka, kb
+    for i, (x, y) in enumerate(zip(a, b)):
+        if x[1] is not None or y[1] is not None:
+            d = tree_diff(x[1] or [], y[1] or [], "the %s at index %d of %s" % ("@media" if x[0] == 4 else "@page", i, where))
+            if d:
+                return d
+    return None
 
 
 def oracle(rx, ops, out):
     """yields (description, witness, sig_text) for every failure of the statement on this history"""
-    container_tables()
-    prev = []
-    for n, (op, (res, st, rp)) in enumerate(zip(ops, out)):
+    bad_table = container_tables()
+    if bad_table:
+        yield ("containment table of the oracle disagrees with the implementation: " + bad_table, {"rx": rx, "ops": []},
+               "table")
+    prev, prevtr = [], []
+    for n, (op, (res, st, rp, tr)) in enumerate(zip(ops, out)):
         hist = {"rx": rx, "ops": ops[:n + 1]}
         if res[0] == "crash":
             yield ("operation raised a non-DOM exception: %s -> %s" % (op_label(op), res[1]), hist, op_label(op))
-        v = order_violation(st)
-        if v and not order_violation(prev):
+        v = order_violation(st, tr)
+        if v and not order_violation(prev, prevtr):
             yield ("invalid rule order after %s: %s" % (op_label(op), v), dict(hist, kinds=[r[0] for r in st]),
                    json.dumps([r[0] for r in prev]))
-        if is_rejected(op, res) and st != prev:
+        if is_rejected(op, res) and (st != prev or tr != prevtr):
             yield ("rejected call changed the rule list: %s -> %s" % (op_label(op), res[1] if res[0] != "ret" else "None"),
                    dict(hist, before=prev, after=st), json.dumps([r[0] for r in prev]))
+        # a container has to take a rule OBJECT of a kind it does not refuse (appended: no index to be wrong)
+        if op[0] in ("add", "append", "extend") and op[1] is not None and op[2] == "obj" and res[0] != "skip":
+            node = subtree(prevtr, op[1])
+            if node is not None:
+                k = RULES[op[3][0]][1][0]
+                allowed = k not in (MEDIA_FORBIDS if node[0] == 4 else PAGE_FORBIDS)
+                if allowed and is_rejected(op, res):
+                    yield ("container refused a rule kind it allows: %s -> %s" % (op_label(op), res[1:]), hist,
+                           op_label(op))
+                if not allowed and not is_rejected(op, res):
+                    yield ("container accepted a rule kind it refuses: %s returned %s" % (op_label(op), res[1]), hist,
+                           op_label(op))
+        # del namespaces[p] that succeeds removes the last @namespace rule with that prefix and nothing else
+        if op[0] == "nsdel" and res == ["ret", None] and st != prev:
+            idx = [i for i, r in enumerate(prev) if r[0] == 10 and r[1] == PFX[op[1]]]
+            if not idx or st != prev[:idx[-1]] + prev[idx[-1] + 1:]:
+                yield ("del namespaces[%r] removed another rule than the @namespace rule of that prefix" % op[1],
+                       dict(hist, before=prev, after=st), json.dumps([r[0] for r in prev]))
         if rp is not None and not v:
-            if len(rp) != 2 or not isinstance(rp[0], list):
+            if len(rp) != 4 or not isinstance(rp[0], list):
                 yield ("cssText could not be serialised / re-parsed after %s: %s" % (op_label(op), rp), hist, str(rp))
-            elif rp[0] != rp[1]:
-                yield ("cssText does not re-parse to the same rules after %s: has %s, re-parsed %s" % (
-                    op_label(op), rp[0], rp[1]), hist, json.dumps(rp[0]))
-        prev = st
+            else:
+                d = tree_diff(rp[2], rp[3])
+                if d:
+                    yield ("cssText does not re-parse to the same rules after %s: %s has %s, re-parsed %s" % (
+                        op_label(op), d[0], d[1], d[2]), hist, json.dumps(rp[0]))
+        prev, prevtr = st, tr
 
 
 # ---------------------------------------------------------------------------------------------- generators
@@ -434,24 +502,40 @@ def wide_alphabet():
     return A
 
 
-def container_ops(k, rx):
+ALL_NAMES = ["cs1", "im", "np1", "var", "st", "stp", "md", "mdn", "pg", "pgm", "ff", "un", "cm", "mg"]
+
+
+def container_ops(k, rx=None):
+    """every representative rule kind as text and as object through insertRule, add, cssRules.append, cssRules.extend
+    and cssText, plus malformed insertions and deletions, on the container addressed by k (index or path)"""
     A = []
-    for n in ("st", "cm", "un", "md", "pg", "mg", "var", "im", "np1", "cs1", "ff"):
-        A.append(["add", k, "obj", [n]])
-        A.append(["ins", k, "text", [n], 0, False])
+    for n in ALL_NAMES:
+        for form in ("text", "obj"):
+            A.append(["ins", k, form, [n], 0, False])
+            A.append(["add", k, form, [n]])
+            A.append(["append", k, form, [n]])
+            A.append(["extend", k, form, [n]])
+        if n != "stp":        # a namespaced selector inside a container block is outside the modelled alphabet
+            A.append(["text", k, [n]])
+            A.append(["text", k, ["st", n, "cm"]])
     A.append(["ins", k, "text", ["st", "st"], 0, False])
-    A.append(["ins", k, "text", ["stp"], 0, False])
+    A.append(["ins", k, "text", [], None, False])
     A.append(["ins", k, "obj", ["st"], 5, False])
+    A.append(["ins", k, "obj", ["st"], -1, False])
     A += [["del", k, 0], ["del", k, -1], ["del", k, 4], ["delobj", k, 0], ["delobj", k, 3]]
     A += [["text", k, ["cm", "im", "st"]], ["text", k, ["st", "un", "md", "pg", "mg"]], ["text", k, ["mg"]], ["text", k, []],
-          ["text", k, ["var", "st"]]]
+          ["text", k, ["var", "st"]], ["text", k, ["mg", "mg"]]]
     return A
+
+
+CONTAINER_BASES = [(["md"], 0), (["pgm"], 0), (["pg"], 0), (["im", "md", "pg"], 1), (["im", "md", "pg"], 2),
+                   (["mdn"], 0), (["mdn"], [0, 0])]
 
 
 def random_op(rng, rx):
     r = rng.random()
     names = list(RULES)
-    if r < 0.5:
+    if r < 0.45:
         n = rng.choice(names)
         form = rng.choice(["text", "text", "obj"])
         if rng.random() < 0.4:
@@ -467,16 +551,8 @@ def random_op(rng, rx):
         return ["enc", rng.choice(["ascii", "utf-8", None])]
     if r < 0.86:
         return ["text", None, [rng.choice(names) for _ in range(rng.randint(0, 6))]]
-    k = rng.randint(0, 5)
-    r2 = rng.random()
-    if r2 < 0.6:
-        return rng.choice(container_ops(k, rx))
-    # container cssText; an @page block with anything but margin rules is outside the modelled alphabet (the model
-    # answers Unmodelled and the rest of that history is compared by the oracle only)
-    pool = ["st", "cm", "un", "md", "pg", "mg", "mg", "im", "var", "np1", "ff", "cs1"]
-    if rng.random() < 0.3:
-        return ["text", k, ["mg"] * rng.randint(0, 2)]
-    return ["text", k, [rng.choice(pool) for _ in range(rng.randint(0, 4))]]
+    k = rng.choice([0, 0, 1, 1, 2, 3, 4, [0, 0], [1, 0]])
+    return rng.choice(container_ops(k))
 
 
 def fix_container_text(sheet_kinds_unknown, op):
@@ -504,16 +580,22 @@ def gen_cases(ctx, thorough):
             cases.append((1, list(seq), False))
         for seq in ctx.rng.sample(list(itertools.product(range(len(wide)), repeat=3)), 60000):
             cases.append((ctx.rng.choice([0, 1]), [wide[i] for i in seq], False))
-    # containers: a sheet holding @media and @page, then container operations
+    # containers: @media, @page and an @media nested in an @media; EVERY rule kind as text and as object through
+    # insertRule / add / cssRules.append / cssRules.extend / cssText; the whole sheet is re-parsed after every op
     for rx in (0, 1):
-        for base in (["md"], ["pgm"], ["im", "md", "pg"]):
-            k = len(base) - 1 if base != ["im", "md", "pg"] else 1
+        for base, k in CONTAINER_BASES:
             pre = [["add", None, "text", [n]] for n in base]
-            cops = container_ops(k, rx)
+            cops = container_ops(k)
             for o in cops:
                 cases.append((rx, pre + [o], True))
-            for o1, o2 in ctx.rng.sample(list(itertools.product(cops, repeat=2)), 150):
+            for o1, o2 in ctx.rng.sample(list(itertools.product(cops, repeat=2)), 400 if thorough else 60):
                 cases.append((rx, pre + [o1, o2], True))
+    for rx in (0, 1):                          # the same methods on the sheet's own rule list
+        for n in ALL_NAMES + ["np2", "nq2", "cs2"]:
+            for form in ("text", "obj"):
+                for m in ("append", "extend"):
+                    cases.append((rx, [["add", None, "text", ["im"]], [m, None, form, [n]]], True))
+                    cases.append((rx, [["add", None, "text", ["st"]], [m, None, form, [n]]], True))
     n_exh = len(cases)
     nrand = 20000 if thorough else 2500
     for _ in range(nrand):
@@ -547,17 +629,24 @@ def run(ctx):
     impl = ctx.pool_map(run_history, cases, procs=6, chunksize=128)
     t_impl = time.time() - t0
     nops = sum(len(c[1]) for c in cases)
-    mism, compared = [], 0
+    mism, compared, n_oracle_only = [], 0, 0
     states, opcount, rescount = set(), {}, {}
     if binary:
-        lines = ["%d %s" % (rx, " ".join(enc_op(o) for o in ops)) for rx, ops, _ in cases]
+        lines, modelled = [], []
+        for ci, (rx, ops, _) in enumerate(cases):
+            try:
+                lines.append("%d %s" % (rx, " ".join(enc_op(o) for o in ops)))
+                modelled.append(ci)
+            except NotModelled:
+                n_oracle_only += 1          # operations on nested containers: judged by the oracle only
         out = ctx.run_binary(binary, lines, shards=6)
-        for (rx, ops, _), im, line in zip(cases, impl, out):
+        for ci, line in zip(modelled, out):
+            (rx, ops, _), im = cases[ci], impl[ci]
             parts = line.split(" ") if line else []
             if len(parts) != len(ops):
                 mism.append(({"rx": rx, "ops": ops}, "model answered %r" % line[:200]))
                 continue
-            for n, (op, (res, st, rp), m) in enumerate(zip(ops, im, parts)):
+            for n, (op, (res, st, rp, tr), m) in enumerate(zip(ops, im, parts)):
                 mres, mstate, mvalid, macc = m.split("#")
                 compared += 1
                 if mres == "U":
@@ -567,7 +656,7 @@ def run(ctx):
                     d = "result: implementation %s, model %s" % (enc_result(res), mres)
                 elif enc_state(st) != mstate:
                     d = "state: implementation %s, model %s" % (enc_state(st), mstate)
-                elif rp is not None and len(rp) == 2 and rp[0] == [r[0] for r in st] and distinct_ns(st):
+                elif rp is not None and len(rp) == 4 and rp[0] == [r[0] for r in st] and distinct_ns(st):
                     if "+".join(map(str, rp[1])) != macc:
                         d = "re-parse: implementation %s, model accept_kinds %s" % (rp[1], macc)
                     elif mvalid == "1" and rp[0] != rp[1]:
@@ -576,7 +665,7 @@ def run(ctx):
                     mism.append(({"rx": rx, "ops": ops[:n + 1]}, d))
                     break
     for (rx, ops, _), im in zip(cases, impl):
-        for op, (res, st, rp) in zip(ops, im):
+        for op, (res, st, rp, tr) in zip(ops, im):
             opcount[op[0]] = opcount.get(op[0], 0) + 1
             rescount[enc_result(res)[:1] + (enc_result(res)[1:] if res[0] == "exc" else "")] = \
                 rescount.get(enc_result(res)[:1] + (enc_result(res)[1:] if res[0] == "exc" else ""), 0) + 1
@@ -601,7 +690,12 @@ def run(ctx):
             batch = []
             for _ in range(1500):
                 rx = rng.choice([0, 1])
-                if rng.random() < 0.6:
+                u = rng.random()
+                if u < 0.35:
+                    base, k = rng.choice(CONTAINER_BASES)
+                    cops = container_ops(k)
+                    ops = [["add", None, "text", [n]] for n in base] + [rng.choice(cops) for _ in range(rng.randint(1, 3))]
+                elif u < 0.7:
                     ops = [rng.choice(wide) for _ in range(rng.randint(1, 4))]
                 else:
                     ops = [random_op(rng, 0) for _ in range(rng.randint(2, 10))]
@@ -650,6 +744,7 @@ def run(ctx):
         "samples": [{"rx": c[0], "ops": c[1]} for c in (cases[len(corpus) + 700], cases[n_exh + len(corpus) + 3],
                                                        cases[n_exh + len(corpus) - 5])],
         "disagreements_checked": compared if binary else 0,
+        "oracle_only_histories": n_oracle_only,
         "trusted_base": TRUSTED,
     }, assumptions=ASSUME, search=search)
 
@@ -661,7 +756,7 @@ def replay(ctx, path):
     for w in ws:
         out = run_history((w["rx"], w["ops"], True))
         fs = list(oracle(w["rx"], w["ops"], out))
-        for op, (res, st, rp) in zip(w["ops"], out):
+        for op, (res, st, rp, tr) in zip(w["ops"], out):
             print("  %-60s -> %-24s kinds=%s" % (json.dumps(op), enc_result(res), [r[0] for r in st]))
         print("replay rx=%s (%d ops) -> %s" % (w["rx"], len(w["ops"]), fs[0][0] if fs else "holds"))
         bad += bool(fs)
